@@ -93,14 +93,12 @@ impl RtpsWriterProxy {
             .frag_buffer
             .iter()
             .filter(|f| f.writer_sn() == seq_num)
-            .fold(0, |mut acc, f| {
-                acc += f.fragments_in_submessage() as u32;
-                acc
-            });
+            // Summed as u64: the number of buffered submessages is not bounded by the u32 range
+            .fold(0u64, |acc, f| acc + f.fragments_in_submessage() as u64);
 
-        if total_fragments == total_fragments_expected {
+        if total_fragments == total_fragments_expected as u64 {
             let mut data = Vec::new();
-            for frag_number in 0..=total_fragments {
+            for frag_number in 0..=total_fragments_expected {
                 let Some(frag) = self
                     .frag_buffer
                     .iter()
